@@ -233,6 +233,47 @@ def run_real_kill(inst, d, after, env=None):
     rr.snapshot = snapshot(d); rr.return_snapshot = None; rr.dir = d; rr.wall = after
     return rr
 
+def run_real_watch(inst, d, watch, env=None, timeout=60, interval=0.0005):
+    """run the workflow and poll the given final paths: the first time one exists, record its size and whether it is
+    complete (ends with its END line). Observing an incomplete file at a final path is a C01 violation by itself."""
+    drv = build("wfdriver")
+    e = dict(os.environ)
+    e.update(VERIF_TRACE=os.path.join(d, "trace.ndjson"), VERIF_CMDLOG=os.path.join(d, "cmdlog"),
+             VERIF_CTL=os.path.join(d, "ctl"), VERIF_HELPER=os.path.join(HARNESS, "cmdhelper.sh"),
+             SCIPIPE_BUFSIZE=str(inst.get("bufsize", 1)))
+    e.update(env or {})
+    p = subprocess.Popen([drv, "wf.json"], cwd=d, env=e, stdout=subprocess.DEVNULL, stderr=subprocess.PIPE, start_new_session=True)
+    seen = {}
+    t0 = time.time()
+    while p.poll() is None and time.time() - t0 < timeout:
+        for w in watch:
+            if w in seen: continue
+            try:
+                sz = os.path.getsize(w)
+                with open(w, "rb") as fh:
+                    fh.seek(max(0, sz - 200)); tail = fh.read().decode(errors="replace")
+                fid = path_id(w)
+                seen[w] = dict(size=sz, complete=tail.endswith("END %s\n" % fid), t=round(time.time() - t0, 4))
+            except (FileNotFoundError, OSError):
+                pass
+        time.sleep(interval)
+    if p.poll() is None:
+        try: os.killpg(p.pid, signal.SIGKILL)
+        except ProcessLookupError: pass
+    err = p.communicate()[1].decode(errors="replace")
+    try: os.killpg(p.pid, signal.SIGKILL)
+    except (ProcessLookupError, PermissionError): pass
+    final = {}
+    for w in watch:
+        try:
+            sz = os.path.getsize(w)
+            with open(w, "rb") as fh:
+                fh.seek(max(0, sz - 200)); tail = fh.read().decode(errors="replace")
+            final[w] = dict(size=sz, complete=tail.endswith("END %s\n" % path_id(w)))
+        except (FileNotFoundError, OSError):
+            pass
+    return dict(rc=p.returncode, first_sight=seen, at_exit=final, stderr=err[-400:], cmdlog=read_cmdlog(os.path.join(d, "cmdlog")))
+
 def validate_histories(inst, exp, hists, faults=None, weak=()):
     rows = []
     for h in hists:
